@@ -301,6 +301,7 @@ def run(check):
   else:
     r_l.violate('list files', bs, None, 'the whitelist/blacklist files are not loaded into their own lists: %s' % loads,
                 construct='read_from')
+  rule_path_as_configured(check, cx, check.rule('R-C12-path-as-configured', 1, 'the reload task watches the list file under the configured path (no symlink resolution at start-up)'))
 
 
 def rule_normalisation(check, cx, r_n):
@@ -584,3 +585,27 @@ def _contains_any_form(cont, val):
     e = e.left
   return isinstance(e, ast.Call) and isinstance(e.func, ast.Attribute) and e.func.attr == 'search' and \
     dotted(e.func.value) == gen.target.id and len(e.args) == 1 and dotted(e.args[0]) == val
+
+
+PATH_KEEPING = {'abspath', 'normpath', 'expanduser', 'expandvars', 'join', 'str', 'fspath', 'normcase'}
+
+
+def rule_path_as_configured(check, cx, rule):
+  """the reload task watches the list file under the path the operator configured: RegexList.read_from keeps the path as given
+  (or a lexical normalisation of it) - it does not resolve symbolic links once at start-up, which would pin the daemon to
+  whatever the link pointed at then (ConfigMap / `current` release links are retargeted while the daemon runs)."""
+  fn = cx.fn('carbon.regexlist', 'RegexList.read_from')
+  if not rule.require(fn is not None, 'RegexList.read_from not found'):
+    return
+  stores = [st for st in ast.walk(fn.node) if isinstance(st, ast.Assign) and
+            any(isinstance(t, ast.Attribute) and t.attr == 'list_file' for t in st.targets)]
+  if not rule.require(bool(stores), 'RegexList.read_from does not record the list file'):
+    return
+  for st in stores:
+    bad = [c for c in ast.walk(st.value) if isinstance(c, ast.Call) and (dotted(c.func) or unparse(c.func)).split('.')[-1] not in PATH_KEEPING]
+    if bad:
+      rule.violate('list file path resolved at start-up', fn, bad[0], 'self.list_file is `%s`: the path the reload task stats and reads is '
+                   'no longer the configured one (a symbolic link is followed once, at start-up), so after the link is retargeted the '
+                   'old rules stay in force - or all rules vanish when the old target is removed' % short(st.value, 60))
+    else:
+      rule.ok('list file recorded as configured', fn.loc(st), short(st.value, 50))
